@@ -104,3 +104,28 @@ Theorem C05_step_ge_displacement_refuted :
        /\ mstat s1 = Alive.
 Proof. exact step_ge_displacement_refuted. Qed.
 Print Assumptions C05_step_ge_displacement_refuted.
+
+(** PropagationApplier: a boundary hit always selects the boundary action (also when the
+    distance equals the pre-step physics limit), otherwise the step only shrinks *)
+Theorem C05_propagation_boundary_sets_action : forall d (s : sim R),
+  mstep s <> 0 ->
+  let s' := propagation_result_apply d true s in
+  mpost s' = ABoundary /\ mstep s' = d.
+Proof. exact propagation_boundary_sets_action. Qed.
+Print Assumptions C05_propagation_boundary_sets_action.
+
+Theorem C05_propagation_result_step_le : forall d b (s : sim R),
+  (b = true -> d <= mstep s) ->
+  mstep (propagation_result_apply d b s) <= mstep s.
+Proof. exact propagation_result_step_le. Qed.
+Print Assumptions C05_propagation_result_step_le.
+
+(** MscStepLimitApplier/MscApplier: MSC is applied back only on steps on which it limited *)
+Theorem C05_msc_apply_only_after_limit : forall t g (s : sim R) (m : mscstep R),
+  (let '(s1, m1) := msc_limit_act false t g s m in
+   msc_apply_act s1 m1 = (s, false))
+  /\ (mstat s = Alive -> 0 < g ->
+      let '(s1, m1) := msc_limit_act true t g s m in
+      snd (msc_apply_act s1 m1) = true /\ mstep (fst (msc_apply_act s1 m1)) = t).
+Proof. exact msc_apply_only_after_limit. Qed.
+Print Assumptions C05_msc_apply_only_after_limit.
